@@ -114,6 +114,9 @@ class Script:
     def flood(self, ifc, n, seed):
         self.lines.append("FLOOD %d %d %d" % (ifc, n, seed))
 
+    def pipe(self, a, b, fill=0):
+        self.lines.append("PIPE %d %d %d" % (a, b, fill))
+
     def adv(self, ms):
         self.lines.append("ADV %d" % ms)
 
